@@ -1192,6 +1192,18 @@ fn case_client_trailers(out: &mut Out, r: &mut Rng, error: bool, client_streamin
         None => {
             gen_peer_entries(r, &mut hdrs, &mut raw_h, 4);
             gen_peer_entries(r, &mut t, &mut raw_t, 5);
+            // every third generated case: a name used (with several values) by headers AND trailers
+            if out.count() % 3 == 0 {
+                for v in ["h1", "h2"] {
+                    hdrs.append("x-both", HeaderValue::from_static(v));
+                }
+                for v in ["t1", "t2", "t3"] {
+                    t.append("x-both", HeaderValue::from_static(v));
+                }
+                hdrs.append("x-both-bin", HeaderValue::from_static("QQ=="));
+                t.append("x-both-bin", HeaderValue::from_static("QUI"));
+                t.append("x-both-bin", HeaderValue::from_static("QUJD"));
+            }
             // sometimes a name of the headers is used by the trailers as well
             if r.chance(1, 3) {
                 if let Some(k) = hdrs.keys().find(|k| k.as_str() != "content-type" && !k.as_str().ends_with("-bin")).cloned() {
@@ -1263,7 +1275,10 @@ fn case_client_trailers(out: &mut Out, r: &mut Rng, error: bool, client_streamin
         }
     };
     out.hist("merge.client.trailers_repeated_key", t.keys().any(|k| t.get_all(k).iter().count() > 1));
-    out.hist("merge.client.key_in_headers_and_trailers", t.keys().any(|k| hdrs.contains_key(k)));
+    out.hist(
+        if error { "merge.client_error_fold.key_in_headers_and_trailers" } else { "merge.client_response.key_in_headers_and_trailers" },
+        trailers.is_some() && t.keys().any(|k| hdrs.contains_key(k)),
+    );
     out.hist("merge.client.call", if client_streaming { "client_streaming" } else { "unary" });
     for vs in raw_t.values() {
         for v in vs {
@@ -1300,6 +1315,16 @@ fn case_server_request_trailers(out: &mut Out, r: &mut Rng, streaming: bool, cor
         }
         None => {
             gen_peer_entries(r, &mut t, &mut raw_t, 5);
+            if out.count() % 3 == 0 {
+                for v in ["h1", "h2"] {
+                    hdrs.append("x-both", HeaderValue::from_static(v));
+                }
+                for v in ["t1", "t2", "t3"] {
+                    t.append("x-both", HeaderValue::from_static(v));
+                }
+                hdrs.append("x-both-bin", HeaderValue::from_static("QQ=="));
+                t.append("x-both-bin", HeaderValue::from_static("QUI"));
+            }
             if r.chance(1, 3) {
                 if let Some(k) = hdrs.keys().find(|k| !["content-type", "te", "grpc-accept-encoding"].contains(&k.as_str()) && !k.as_str().ends_with("-bin")).cloned() {
                     t.append(k, HeaderValue::from_static("from-trailers"));
@@ -1324,6 +1349,7 @@ fn case_server_request_trailers(out: &mut Out, r: &mut Rng, streaming: bool, cor
         },
     };
     out.hist("merge.server.trailers_repeated_key", t.keys().any(|k| t.get_all(k).iter().count() > 1));
+    out.hist("merge.server.key_in_headers_and_trailers", with_trailers && t.keys().any(|k| hdrs.contains_key(k)));
     out.push(Case {
         kind: if corpus.is_some() { "corpus.merge.server_request".into() } else { "merge.server_request".into() },
         input: json!({"headers": hm_json(&hdrs), "trailers": trailers.as_ref().map(hm_json), "streaming": streaming, "probes": probes}),
@@ -1989,6 +2015,151 @@ fn case_mutate(out: &mut Out, ops: &[Op], probe: &str, va: &[u8], vb: &[u8]) {
     });
 }
 
+// ------------------------------------------------------------------ literal keys and values
+fn leak(s: &str) -> &'static str {
+    Box::leak(s.to_string().into_boxed_str())
+}
+fn res_tr(r: Result<Tr, String>) -> Tr {
+    match r {
+        Ok(t) => Tr::L(vec![Tr::n(1u8), t]),
+        Err(_) => Tr::L(vec![Tr::n(99u8)]),
+    }
+}
+/// accessors keyed by MetadataKey<VE> / &MetadataKey<VE> answer like the string-keyed ones
+fn typed_keys_agree(md: &MetadataMap, raw: &str) -> bool {
+    let mut ok = true;
+    let enc = |v: Option<&MetadataValue<Ascii>>| v.map(|v| v.as_encoded_bytes().to_vec());
+    let encb = |v: Option<&MetadataValue<Binary>>| v.map(|v| v.as_encoded_bytes().to_vec());
+    if let Ok(k) = MetadataKey::<Ascii>::from_bytes(raw.as_bytes()) {
+        let s = k.as_str().to_string();
+        ok &= enc(md.get(k.clone())) == enc(md.get(s.as_str())) && enc(md.get(&k)) == enc(md.get(s.as_str()));
+        let all = |g: tonic::metadata::GetAll<'_, Ascii>| g.iter().map(|v| v.as_encoded_bytes().to_vec()).collect::<Vec<_>>();
+        ok &= all(md.get_all(&k)) == all(md.get_all(s.as_str())) && all(md.get_all(k.clone())) == all(md.get_all(s.as_str()));
+        ok &= md.contains_key(&k) == md.contains_key(s.as_str());
+        let (mut m1, mut m2, mut m3) = (md.clone(), md.clone(), md.clone());
+        ok &= m1.get_mut(&k).is_some() == m2.get_mut(s.as_str()).is_some();
+        ok &= matches!(m1.entry(&k), Ok(Entry::Occupied(_))) == matches!(m2.entry(s.as_str()), Ok(Entry::Occupied(_)));
+        ok &= matches!(m3.entry(k.clone()), Ok(Entry::Occupied(_))) == matches!(m2.entry(s.as_str()), Ok(Entry::Occupied(_)));
+        ok &= enc(m1.remove(&k).as_ref()) == enc(m2.remove(s.as_str()).as_ref());
+        m3.remove(k);
+        ok &= m1.clone().into_headers() == m2.into_headers() && m1.into_headers() == m3.into_headers();
+    }
+    if let Ok(k) = MetadataKey::<Binary>::from_bytes(raw.as_bytes()) {
+        let s = k.as_str().to_string();
+        ok &= encb(md.get_bin(k.clone())) == encb(md.get_bin(s.as_str())) && encb(md.get_bin(&k)) == encb(md.get_bin(s.as_str()));
+        let all = |g: tonic::metadata::GetAll<'_, Binary>| g.iter().map(|v| v.as_encoded_bytes().to_vec()).collect::<Vec<_>>();
+        ok &= all(md.get_all_bin(&k)) == all(md.get_all_bin(s.as_str())) && all(md.get_all_bin(k.clone())) == all(md.get_all_bin(s.as_str()));
+        ok &= md.contains_key(&k) == md.contains_key(s.as_str());
+        let (mut m1, mut m2, mut m3) = (md.clone(), md.clone(), md.clone());
+        ok &= m1.get_bin_mut(&k).is_some() == m2.get_bin_mut(s.as_str()).is_some();
+        ok &= matches!(m1.entry_bin(&k), Ok(Entry::Occupied(_))) == matches!(m2.entry_bin(s.as_str()), Ok(Entry::Occupied(_)));
+        ok &= matches!(m3.entry_bin(k.clone()), Ok(Entry::Occupied(_))) == matches!(m2.entry_bin(s.as_str()), Ok(Entry::Occupied(_)));
+        ok &= encb(m1.remove_bin(&k).as_ref()) == encb(m2.remove_bin(s.as_str()).as_ref());
+        m3.remove_bin(k);
+        ok &= m1.clone().into_headers() == m2.into_headers() && m1.into_headers() == m3.into_headers();
+    }
+    ok
+}
+fn case_static(out: &mut Out, ops: &[Op], raw: &str, v: &str, corpus: bool) {
+    let (md, _) = apply_ops(ops);
+    let (sraw, sv) = (leak(raw), leak(v));
+    let mut why: Option<String> = None;
+    let ka = catch(move || MetadataKey::<Ascii>::from_static(sraw).as_str().to_string());
+    let kb = catch(move || MetadataKey::<Binary>::from_static(sraw).as_str().to_string());
+    let is_bin_name = raw.ends_with("-bin");
+    if ka.is_ok() && kb.is_ok() {
+        why = Some("a literal key is accepted as both ASCII and binary".into());
+    } else if ka.is_ok() && is_bin_name {
+        why = Some(format!("AsciiMetadataKey::from_static accepts the -bin name {:?}", raw));
+    } else if kb.is_ok() && !is_bin_name {
+        why = Some(format!("BinaryMetadataKey::from_static accepts the name {:?} without -bin", raw));
+    } else if ka.as_ref().ok().or(kb.as_ref().ok()).map(|k| k != raw).unwrap_or(false) {
+        why = Some("from_static changed the key".into());
+    }
+    let pa = raw.parse::<MetadataKey<Ascii>>().ok().map(|k| Tr::s(k.as_str()));
+    let pb = raw.parse::<MetadataKey<Binary>>().ok().map(|k| Tr::s(k.as_str()));
+    let va = catch(move || MetadataValue::<Ascii>::from_static(sv));
+    let vb = catch(move || MetadataValue::<Binary>::from_static(sv));
+    if let Ok(x) = &va {
+        if x.as_encoded_bytes() != v.as_bytes() && why.is_none() {
+            why = Some("an ASCII literal value changed".into());
+        }
+    }
+    if let Ok(x) = &vb {
+        if (x.as_encoded_bytes() != v.as_bytes() || x.to_bytes().is_err()) && why.is_none() {
+            why = Some("a binary literal value is not kept as written / does not decode".into());
+        }
+    }
+    let fs = v.parse::<MetadataValue<Ascii>>().ok().map(|x| Tr::b(x.as_encoded_bytes()));
+    let sh = MetadataValue::<Ascii>::try_from(Bytes::copy_from_slice(v.as_bytes())).ok().map(|x| Tr::b(x.as_encoded_bytes()));
+    let shb = MetadataValue::<Binary>::try_from(Bytes::copy_from_slice(v.as_bytes())).ok();
+    if let Some(x) = &shb {
+        if x.to_bytes().ok().as_deref() != Some(v.as_bytes()) && why.is_none() {
+            why = Some("a binary value made from shared bytes does not decode to them".into());
+        }
+    }
+    let mut ins = vec![];
+    for (bin, append) in [(false, false), (false, true), (true, false), (true, true)] {
+        let mut m = md.clone();
+        let r = catch(std::panic::AssertUnwindSafe(move || {
+            match (bin, append) {
+                (false, false) => {
+                    m.insert(sraw, MetadataValue::<Ascii>::from_static("sv"));
+                }
+                (false, true) => {
+                    m.append(sraw, MetadataValue::<Ascii>::from_static("sv"));
+                }
+                (true, false) => {
+                    m.insert_bin(sraw, MetadataValue::<Binary>::from_bytes(&[1]));
+                }
+                (true, true) => {
+                    m.append_bin(sraw, MetadataValue::<Binary>::from_bytes(&[1]));
+                }
+            }
+            m.into_headers()
+        }));
+        if let Ok(h) = &r {
+            let stored = HeaderName::from_bytes(raw.as_bytes()).ok().map(|n| h.contains_key(n)).unwrap_or(false);
+            if (!stored || is_bin_name != bin) && why.is_none() {
+                why = Some(format!(
+                    "{} with the literal key {:?} stored a {} value under a {} name",
+                    if append { "append" } else { "insert" }, raw, if bin { "binary" } else { "ASCII" }, if is_bin_name { "-bin" } else { "non -bin" }
+                ));
+            }
+            if why.is_none() {
+                why = oracle_typed(h);
+            }
+        }
+        ins.push(res_tr(r.map(|h| hm_tr(&h))));
+    }
+    let agree = typed_keys_agree(&md, raw);
+    if !agree && why.is_none() {
+        why = Some(format!("accessors keyed by MetadataKey differ from the string-keyed ones for {:?}", raw));
+    }
+    let mut l = vec![
+        res_tr(ka.map(|k| Tr::s(&k))),
+        res_tr(kb.map(|k| Tr::s(&k))),
+        Tr::opt(pa),
+        Tr::opt(pb),
+        res_tr(va.map(|x| Tr::b(x.as_encoded_bytes()))),
+        res_tr(vb.map(|x| bin_val_tr(&x))),
+        Tr::opt(fs),
+        Tr::opt(sh),
+        Tr::opt(shb.as_ref().map(bin_val_tr)),
+    ];
+    l.extend(ins);
+    l.push(Tr::bool(agree));
+    out.hist("static.key", if raw.is_empty() { "empty" } else if raw.bytes().any(|b| b.is_ascii_uppercase()) { "upper-case" } else if is_bin_name { "-bin" } else { "other" });
+    out.push(Case {
+        kind: if corpus { "corpus.static".into() } else { "static".into() },
+        input: json!({"ops": ops_json(ops), "key": raw, "value": v}),
+        model: format!("obs_static {} {} {}", coq_ops(ops), coq_bytes(raw.as_bytes()), coq_bytes(v.as_bytes())),
+        impl_obs: Tr::L(l),
+        oracle: why,
+        nontrivial: true,
+    });
+}
+
 fn op(t: u8, k: &str, v: &[u8]) -> Op {
     Op { t, key: k.to_string(), val: v.to_vec() }
 }
@@ -2038,6 +2209,12 @@ fn main() {
         for (reply, streaming) in [(Reply::Ok, false), (Reply::Ok, true), (Reply::StreamErr, true), (Reply::Err, false), (Reply::Err, true)] {
             case_server(&mut out, &mut r, &forged, reply, streaming, compress, (7, "no: 100%".into(), vec![]), true);
             case_server(&mut out, &mut r, &forged, reply, streaming, compress, (13, "".into(), vec![1, 2, 3, 4]), true);
+        }
+    }
+    // literal keys and values
+    for k in ["x-a", "x-bin", "x-data-bin", "-bin", "bin", "X-A", "X-BIN", "x-Bin", "", "x a", "x\"y", "x{y}", "te", "grpc-status-details-bin", "x\u{e9}"] {
+        for v in ["", "text", "QQ==", "QQ", "QQ=", "Q", "!!!", "a\tb", "caf\u{e9}", "del\u{7f}"] {
+            case_static(&mut out, &[op(1, "x-a", b"1"), op(3, "x-data-bin", b"\x00\x01")], k, v, true);
         }
     }
     // trailers of a successful unary response with repeated custom keys (merge)
@@ -2115,6 +2292,24 @@ fn main() {
         }
         case_add_header(&mut out, &mut r, &ops, st, base, false);
     }
+    for _ in 0..n / 2 {
+        let ops = gen_ops(&mut r, false);
+        let k: String = match r.below(6) {
+            0 => (*r.pick(&["", "x a", "x\"y", "x{y}", "x\u{e9}", "a\n"])).to_string(),
+            1 => {
+                let k = *r.pick(BIN_KEYS);
+                flip_case(&mut r, k)
+            }
+            2 | 3 => r.pick(BIN_KEYS).to_ascii_lowercase(),
+            _ => (*r.pick(ASCII_KEYS)).to_string(),
+        };
+        let v: String = match r.below(4) {
+            0 => String::from_utf8_lossy(&gen_b64_text(&mut r)).to_string(),
+            1 => String::from_utf8(b64(&gen_bin_value(&mut r), r.chance(1, 2))).unwrap(),
+            _ => String::from_utf8_lossy(&gen_ascii_value(&mut r)).to_string(),
+        };
+        case_static(&mut out, &ops, &k, &v, false);
+    }
     for i in 0..n / 2 {
         case_client_trailers(&mut out, &mut r, i % 4 == 3, i % 2 == 0, i % 7 != 0, None);
     }
@@ -2177,7 +2372,7 @@ fn main() {
 
     out.finish(
         IMPORTS,
-        "client / server.response / server.trailers / server.trailers_only / add_header: random MetadataMaps built through the public API (keys +-bin in any case, visible-ASCII, space/tab and obs-text values, binary values of every length mod 3, repeated keys, the six reserved names and grpc-encoding / grpc-status-details-bin anywhere) sent through the real client::Grpc (capturing transport), server::Grpc unary / server-streaming handlers (Response metadata, error status in trailers, trailers-only) and Status::add_header, with and without compression configured; the peer's request reaches the handler with padded and unpadded binary values; non-trivial = non-empty metadata. status_received: the headers written by Status::add_header read back with Status::from_header_map, the received status.metadata() read with the typed accessors. client_error.trailers_only / client_error.trailers: a real server::Grpc handler (unary and server-streaming) failing with a status that carries repeated ASCII and binary keys, called by a real client::Grpc over an in-memory transport; the Err(status).metadata() the caller gets. merge.client_response / merge.client_error_fold / merge.server_request: MetadataMap::merge at its three call sites - client::Grpc::unary and client_streaming against a scripted response (headers, one message, trailers with repeated custom keys, padded and unpadded binary values, names shared with the headers), an error status in the trailers of a unary call (headers folded into the status metadata), and a scripted request with trailers into server::Grpc::unary / server_streaming. accessor: maps built by insert/append/remove(+_bin) and read with string keys of any case (&str, String and &String). Every received map is also read through iter, iter_mut, keys, values, values_mut, get_mut, get_bin_mut and entry / entry_bin. entry: the Entry API (or_insert, VacantEntry insert / insert_entry / into_key, OccupiedEntry get / iter / insert / insert_mult / append / remove / remove_entry_mult / get_mut / iter_mut) with keys of any case and of the wrong kind, the static encoding of every key / value / handle it hands out is observed. mutate: writes through get_mut / get_bin_mut / values_mut / iter_mut. bin_value / bin_text: byte strings and arbitrary base64 texts. key / ascii_value: validation. Distinct = distinct (kind, model expression).",
+        "client / server.response / server.trailers / server.trailers_only / add_header: random MetadataMaps built through the public API (keys +-bin in any case, visible-ASCII, space/tab and obs-text values, binary values of every length mod 3, repeated keys, the six reserved names and grpc-encoding / grpc-status-details-bin anywhere) sent through the real client::Grpc (capturing transport), server::Grpc unary / server-streaming handlers (Response metadata, error status in trailers, trailers-only) and Status::add_header, with and without compression configured; the peer's request reaches the handler with padded and unpadded binary values; non-trivial = non-empty metadata. status_received: the headers written by Status::add_header read back with Status::from_header_map, the received status.metadata() read with the typed accessors. client_error.trailers_only / client_error.trailers: a real server::Grpc handler (unary and server-streaming) failing with a status that carries repeated ASCII and binary keys, called by a real client::Grpc over an in-memory transport; the Err(status).metadata() the caller gets. merge.client_response / merge.client_error_fold / merge.server_request: MetadataMap::merge at its three call sites - client::Grpc::unary and client_streaming against a scripted response (headers, one message, trailers with repeated custom keys, padded and unpadded binary values, names shared with the headers), an error status in the trailers of a unary call (headers folded into the status metadata), and a scripted request with trailers into server::Grpc::unary / server_streaming. static: literal keys and values - MetadataKey::<Ascii|Binary>::from_static and FromStr, MetadataValue::<Ascii|Binary>::from_static / FromStr / TryFrom<Bytes>, insert / append / insert_bin / append_bin with &'static str keys (panics observed under catch), accessors keyed by MetadataKey<VE> and &MetadataKey<VE>. accessor: maps built by insert/append/remove(+_bin) and read with string keys of any case (&str, String and &String). Every received map is also read through iter, iter_mut, keys, values, values_mut, get_mut, get_bin_mut and entry / entry_bin. entry: the Entry API (or_insert, VacantEntry insert / insert_entry / into_key, OccupiedEntry get / iter / insert / insert_mult / append / remove / remove_entry_mult / get_mut / iter_mut) with keys of any case and of the wrong kind, the static encoding of every key / value / handle it hands out is observed. mutate: writes through get_mut / get_bin_mut / values_mut / iter_mut. bin_value / bin_text: byte strings and arbitrary base64 texts. key / ascii_value: validation. Distinct = distinct (kind, model expression).",
         json!({}),
     );
 }
